@@ -69,7 +69,7 @@ func c07Relay(entry string, n []uint64, f []string) string {
 		cfg := &ip.Option82Config{CircuitIDFormat: string(c07Arg(f, 0)), RemoteIDFormat: string(c07Arg(f, 1)), IncludeFlags: c07Num(n, 0) != 0}
 		out, err := BuildOption82(cfg, &Option82Params{}, c07Num(n, 1) != 0)
 		if err != nil {
-			return "err 1"
+			return "err"
 		}
 		return c07Ok(c07TB(out))
 	case "o82ins": // o82ins <policy 0 replace|1 keep|2 drop> <pkt> <opt82>
@@ -106,11 +106,11 @@ func c07Relay(entry string, n []uint64, f []string) string {
 		if err != nil {
 			switch {
 			case strings.HasPrefix(err.Error(), "packet too short"):
-				return "err 1"
+				return "err"
 			case strings.HasPrefix(err.Error(), "not a relay-reply"):
-				return "err 2"
+				return "err"
 			}
-			return "err 3"
+			return "err"
 		}
 		return c07Ok(c07TB(inner))
 	case "v6txid":
